@@ -25,6 +25,7 @@
 #include <sstream>
 #include <fstream>
 #include <functional>
+#include <utility>
 #include <dune/common/exceptions.hh>
 #include <dune/common/fvector.hh>
 #include <dune/common/dynvector.hh>
@@ -89,6 +90,7 @@ static std::string run_guard(Mk&& mk, const std::string& script, bool count, boo
 
 // ------------------------------------------------------------------------------------------------ futures
 static std::string show(int x) { return "[" + std::to_string(x) + "]"; }
+static std::string show(long x) { return "[" + std::to_string(x) + "]"; }
 template<class C> static std::string show(const C& v)
 {
   if (v.size() > 16) { long long sum = 0; for (size_t i = 0; i < (size_t)v.size(); ++i) sum += (long long)v[i];
@@ -104,8 +106,8 @@ template<class F> struct can_default : std::true_type {};
 template<class R, class S> struct can_default<Dune::MPIFuture<R, S>> : std::bool_constant<std::is_void_v<S> && !std::is_reference_v<R>> {};
 template<class T> struct can_default<Dune::PseudoFuture<T>> : std::bool_constant<!std::is_reference_v<T>> {};
 
-template<class F, bool MOVABLE>
-static void run_ops(F& f, const std::string& order, size_t from, size_t to, std::string& out)
+template<class F, bool MOVABLE, class Renew>
+static void run_ops(F& f, const std::string& order, size_t from, size_t to, std::string& out, Renew&& renew)
 {
   using R = decltype(f.get());
   for (size_t i = from; i < to && i < order.size(); ++i) {
@@ -113,8 +115,25 @@ static void run_ops(F& f, const std::string& order, size_t from, size_t to, std:
     if (!out.empty()) out += " ";
     try {
       switch (c) {
-        case 'v': out += f.valid() ? "v1" : "v0"; break;
-        case 'r': out += f.ready() ? "r1" : "r0"; break;
+        // valid()/ready() are const members: called through a const reference at odd positions
+        case 'v': out += (i % 2 ? std::as_const(f).valid() : f.valid()) ? "v1" : "v0"; break;
+        case 'r': out += (i % 2 ? std::as_const(f).ready() : f.ready()) ? "r1" : "r0"; break;
+        case 'M':   // move CONSTRUCT a new future, ask the TARGET whether it is ready (the request must have moved along), move back
+          if constexpr (MOVABLE && std::is_move_assignable_v<F>) { F tmp(std::move(f)); bool rd = tmp.ready(); f = std::move(tmp); out += rd ? "M1" : "M0"; }
+          else out += "M?";
+          break;
+        case 'A':   // the same through move ASSIGNMENT into a default-constructed future
+          if constexpr (MOVABLE && can_default<F>::value && std::is_move_assignable_v<F>) { F d; d = std::move(f); bool rd = d.ready(); f = std::move(d); out += rd ? "A1" : "A0"; }
+          else out += "A?";
+          break;
+        case 'S':   // self move assignment: must leave the future as it is
+          if constexpr (MOVABLE && std::is_move_assignable_v<F>) { F& alias = f; f = std::move(alias); out += "S."; }
+          else out += "S?";
+          break;
+        case 'n':   // the same object receives a NEW operation (move assignment from the temporary returned by the call)
+          if constexpr (MOVABLE && std::is_move_assignable_v<F>) { renew(f); out += "n."; }
+          else out += "n?";
+          break;
         case 'w': f.wait(); out += "w."; break;
         case 'g':
           if constexpr (std::is_void_v<R>) { f.get(); out += "g[]"; }
@@ -145,7 +164,8 @@ static void run_ops(F& f, const std::string& order, size_t from, size_t to, std:
 }
 
 struct FCase { int P; std::string fam, op, pay, wrap; int salt, late; std::string dep, order; };
-static MPI_Comm g_hcomm, g_wdup;
+static MPI_Comm g_hcomm, g_wdup, g_rev, g_fcomm;   // g_rev: all ranks, order reversed (key = -rank); g_fcomm: communicator of the current future case
+static int g_me = 0;                              // rank inside g_fcomm
 
 static size_t nb_prefix(const std::string& o) { size_t k = 0; while (k < o.size() && o[k] != 'w' && o[k] != 'g' && o[k] != 'd') ++k; return k; }
 
@@ -156,13 +176,15 @@ static std::string flow(const FCase& c, Start&& start, std::function<void()> cle
   using F0 = decltype(start());
   std::string out;
   try {
-  bool lt = c.fam == "M" && c.late >= 0;
-  if (lt && g_rank == c.late) MPI_Barrier(g_hcomm);
-  size_t k1 = (lt && g_rank != c.late) ? nb_prefix(c.order) : 0;
+  bool lt = c.fam != "N" && c.late >= 0;
+  if (lt && g_me == c.late) MPI_Barrier(g_hcomm);
+  size_t k1 = (lt && g_me != c.late) ? nb_prefix(c.order) : 0;
   auto body = [&](auto& f, auto movable) {
-    run_ops<std::decay_t<decltype(f)>, decltype(movable)::value>(f, c.order, 0, k1, out);
-    if (lt && g_rank != c.late) MPI_Barrier(g_hcomm);
-    run_ops<std::decay_t<decltype(f)>, decltype(movable)::value>(f, c.order, k1, c.order.size(), out);
+    using FF = std::decay_t<decltype(f)>;
+    auto renew = [&](FF& ff) { if constexpr (std::is_move_assignable_v<FF>) ff = FF(start()); };
+    run_ops<FF, decltype(movable)::value>(f, c.order, 0, k1, out, renew);
+    if (lt && g_me != c.late) MPI_Barrier(g_hcomm);
+    run_ops<FF, decltype(movable)::value>(f, c.order, k1, c.order.size(), out, renew);
     // not part of the observation: complete a still pending operation before the future is destroyed
     try { if (f.valid()) f.wait(); } catch (...) {}
   };
@@ -170,6 +192,11 @@ static std::string flow(const FCase& c, Start&& start, std::function<void()> cle
     using R = decltype(std::declval<F0&>().get());
     Dune::Future<R> f(start());
     body(f, std::true_type());
+  } else if (c.wrap == "c") {
+    // converting: Future<T> around a future whose get() returns T& (FutureModel::get casts)
+    using R = std::decay_t<decltype(std::declval<F0&>().get())>;
+    if constexpr (std::is_void_v<R>) { Dune::Future<void> f(start()); body(f, std::true_type()); }
+    else { Dune::Future<R> f(start()); body(f, std::true_type()); }
   } else {
     F0 f = start();
     body(f, std::true_type());
@@ -192,9 +219,9 @@ template<class X, class Comm>
 static std::string single_buffer_value(const FCase& c, Comm& cc, const std::string& op, X mine, X blank, int root, int dest, int src, int tag,
                                        MPI_Request& raw, double* rawbuf, int n, std::function<void()> fin)
 {
-  const int me = g_rank;
-  if (op == "isend") return flow(c, [&]() { MPI_Irecv(rawbuf, n, MPI_DOUBLE, src, tag, g_wdup, &raw); return cc.isend(X(mine), dest, tag); }, fin);
-  if (op == "irecv") return flow(c, [&]() { MPI_Isend((void*)&mine[0], n, MPI_DOUBLE, dest, tag, g_wdup, &raw); return cc.irecv(X(blank), src, tag); }, fin);
+  const int me = g_me;
+  if (op == "isend") return flow(c, [&]() { MPI_Irecv(rawbuf, n, MPI_DOUBLE, src, tag, g_fcomm, &raw); return cc.isend(X(mine), dest, tag); }, fin);
+  if (op == "irecv") return flow(c, [&]() { MPI_Isend((void*)&mine[0], n, MPI_DOUBLE, dest, tag, g_fcomm, &raw); return cc.irecv(X(blank), src, tag); }, fin);
   if (op == "ibcast") return flow(c, [&]() { return cc.ibroadcast(X(me == root ? mine : blank), root); });
   if (op == "iallreduce1") return flow(c, [&]() { return cc.template iallreduce<std::plus<double>>(X(mine)); });
   return "UNSUPPORTED";
@@ -202,8 +229,8 @@ static std::string single_buffer_value(const FCase& c, Comm& cc, const std::stri
 
 static std::string future_mpi(const FCase& c, long caseno)
 {
-  Dune::Communication<MPI_Comm> cc(g_wdup);
-  const int P = g_size, me = g_rank, root = c.salt % P, salt = c.salt, tag = 100 + (int)(caseno % 20000);
+  Dune::Communication<MPI_Comm> cc(g_fcomm);
+  const int P = g_size, me = g_me, root = c.salt % P, salt = c.salt, tag = 100 + (int)(caseno % 20000);
   const int dest = (me + 1) % P, src = (me + P - 1) % P;
   const std::string& op = c.op; const char pay = c.pay[0];
   // lvalue storage for the reference payloads (outlives the future)
@@ -231,16 +258,37 @@ static std::string future_mpi(const FCase& c, long caseno)
                           mkfill<Dune::DynamicVector<double>>(3, -1.0), root, dest, src, tag, raw, rawv.data(), 3, fin);
   if (pay == 'L') return single_buffer_value<std::vector<double>>(c, cc, op, dvec(me, salt, 3000), std::vector<double>(3000, -1.0),
                           root, dest, src, tag, raw, rawv.data(), 3000, fin);
+  if (pay == 'l') {   // another scalar element type
+    long xl = val(me, salt, 0); static long rawl; rawl = -1;
+    if (op == "isend") return flow(c, [&]() { MPI_Irecv(&rawl, 1, MPI_LONG, src, tag, g_fcomm, &raw); return cc.isend(long(xl), dest, tag); }, fin);
+    if (op == "irecv") return flow(c, [&]() { MPI_Isend(&xl, 1, MPI_LONG, dest, tag, g_fcomm, &raw); return cc.irecv(long(-1), src, tag); }, fin);
+    if (op == "ibcast") return flow(c, [&]() { return cc.ibroadcast(long(me == root ? xl : -1), root); });
+    if (op == "iallreduce1") return flow(c, [&]() { return cc.template iallreduce<std::plus<long>>(long(xl)); });
+    return "UNSUPPORTED";
+  }
+  if (pay == 's') {   // std::string is a container payload of MPIData too
+    std::string mine(3, 'a'), blank(3, '?'); static char rawc[4];
+    for (int i = 0; i < 3; ++i) mine[i] = (char)('a' + val(me, salt, i) % 26);
+    if (op == "isend") return flow(c, [&]() { MPI_Irecv(rawc, 3, MPI_CHAR, src, tag, g_fcomm, &raw); return cc.isend(std::string(mine), dest, tag); }, fin);
+    if (op == "irecv") return flow(c, [&]() { MPI_Isend(mine.data(), 3, MPI_CHAR, dest, tag, g_fcomm, &raw); return cc.irecv(std::string(blank), src, tag); }, fin);
+    if (op == "ibcast") return flow(c, [&]() { return cc.ibroadcast(std::string(me == root ? mine : blank), root); });
+    return "UNSUPPORTED";
+  }
+  if (pay == 'e') {   // size 0
+    if (op == "isend") return flow(c, [&]() { MPI_Irecv(rawv.data(), 0, MPI_DOUBLE, src, tag, g_fcomm, &raw); return cc.isend(std::vector<double>(), dest, tag); }, fin);
+    if (op == "ibcast") return flow(c, [&]() { return cc.ibroadcast(std::vector<double>(), root); });
+    return "UNSUPPORTED";
+  }
   if (pay == 'F') {
     Dune::FieldVector<double, 3> mine = fvec(me, salt), blank(-1.0);
-    if (op == "isend") return flow(c, [&]() { MPI_Irecv(rawv.data(), 3, MPI_DOUBLE, src, tag, g_wdup, &raw); return cc.isend(Dune::FieldVector<double, 3>(mine), dest, tag); }, fin);
-    if (op == "irecv") return flow(c, [&]() { MPI_Isend(&mine[0], 3, MPI_DOUBLE, dest, tag, g_wdup, &raw); return cc.irecv(Dune::FieldVector<double, 3>(blank), src, tag); }, fin);
+    if (op == "isend") return flow(c, [&]() { MPI_Irecv(rawv.data(), 3, MPI_DOUBLE, src, tag, g_fcomm, &raw); return cc.isend(Dune::FieldVector<double, 3>(mine), dest, tag); }, fin);
+    if (op == "irecv") return flow(c, [&]() { MPI_Isend(&mine[0], 3, MPI_DOUBLE, dest, tag, g_fcomm, &raw); return cc.irecv(Dune::FieldVector<double, 3>(blank), src, tag); }, fin);
     if (op == "ibcast") return flow(c, [&]() { return cc.ibroadcast(Dune::FieldVector<double, 3>(me == root ? mine : blank), root); });
     return "UNSUPPORTED";
   }
   if (op == "isend") {
-    auto post = [&]() { if (pay == 'i' || pay == 'j') MPI_Irecv(&rawi, 1, MPI_INT, src, tag, g_wdup, &raw);
-                        else MPI_Irecv(rawv.data(), 3, MPI_DOUBLE, src, tag, g_wdup, &raw); };
+    auto post = [&]() { if (pay == 'i' || pay == 'j') MPI_Irecv(&rawi, 1, MPI_INT, src, tag, g_fcomm, &raw);
+                        else MPI_Irecv(rawv.data(), 3, MPI_DOUBLE, src, tag, g_fcomm, &raw); };
     switch (pay) {
       case 'i': return flow(c, [&]() { post(); return cc.isend(int(xi), dest, tag); }, fin);
       case 'j': return flow(c, [&]() { post(); return cc.isend(xi, dest, tag); }, fin);
@@ -249,8 +297,8 @@ static std::string future_mpi(const FCase& c, long caseno)
     }
   }
   if (op == "irecv") {
-    auto post = [&]() { if (pay == 'i' || pay == 'j') MPI_Isend(&xi, 1, MPI_INT, dest, tag, g_wdup, &raw);
-                        else MPI_Isend(xv.data(), 3, MPI_DOUBLE, dest, tag, g_wdup, &raw); };
+    auto post = [&]() { if (pay == 'i' || pay == 'j') MPI_Isend(&xi, 1, MPI_INT, dest, tag, g_fcomm, &raw);
+                        else MPI_Isend(xv.data(), 3, MPI_DOUBLE, dest, tag, g_fcomm, &raw); };
     switch (pay) {
       case 'i': return flow(c, [&]() { post(); return cc.irecv(int(-1), src, tag); }, fin);
       case 'j': return flow(c, [&]() { post(); return cc.irecv(ri, src, tag); }, fin);
@@ -379,6 +427,7 @@ int main(int argc, char** argv)
   if (argc < 3) { if (g_rank == 0) fprintf(stderr, "usage: impl cases out\n"); return 2; }
   MPI_Comm_dup(MPI_COMM_WORLD, &g_hcomm);
   MPI_Comm_dup(MPI_COMM_WORLD, &g_wdup);
+  MPI_Comm_split(MPI_COMM_WORLD, 0, -g_rank, &g_rev);
   int alarm_s = getenv("C19_ALARM") ? atoi(getenv("C19_ALARM")) : 20;
   signal(SIGALRM, on_alarm);
   std::ifstream in(argv[1]);
@@ -399,6 +448,8 @@ int main(int argc, char** argv)
     if (kind == "C") return run_guard([&]() { return Dune::MPIGuard(Dune::Communication<MPI_Comm>(g_wdup), act); }, script, true);
     if (kind == "W") return run_guard([&]() { return Dune::MPIGuard(g_wdup, act); }, script, true);
     if (kind == "S") return run_guard([&]() { return Dune::MPIGuard(sc, act); }, script, true);
+    if (kind == "R") return run_guard([&]() { return Dune::MPIGuard(g_rev, act); }, script, true);                              // ranks reversed w.r.t. world
+    if (kind == "D") return run_guard([&]() { return Dune::MPIGuard(Dune::Communication<MPI_Comm>(), act); }, script, true);   // default argument MPI_COMM_WORLD
     if (kind == "T") return run_guard([&]() { return Dune::MPIGuard(Dune::Communication<MPI_Comm>(sc), act); }, script, true);
     // default argument `active = true` of every constructor (lower case kinds, act must be 1)
     if (kind == "h") return run_guard([&]() { return Dune::MPIGuard(); }, script, true);
@@ -437,11 +488,11 @@ int main(int argc, char** argv)
         res += run_kind(t[2], j < t[3].size() && t[3][j] == '1', t[4], mine[j] == "-" ? std::string() : mine[j]);
       }
     }
-    else if (t.size() >= 6 && t[0] == "N") {
+    else if (t.size() >= 6 && (t[0] == "N" || t[0] == "O")) {
       // nested: outer guard on the world communicator, inner guard on the split communicator of this rank's colour
       std::vector<std::string> scripts = split(t[5], ',');
       std::string script = (size_t)g_rank < scripts.size() ? scripts[g_rank] : "";
-      MPI_Comm sc = split_comm(t[2]);
+      MPI_Comm sc = t[0] == "O" ? g_wdup : split_comm(t[2]);    // O: inner and outer guard on the SAME communicator
       std::string inner = "?", outer = "?";
       long c0 = g_allreduce, c1 = c0;
       try {
@@ -461,7 +512,8 @@ int main(int argc, char** argv)
     }
     else if (t.size() >= 10 && t[0] == "F") {
       FCase c{atoi(t[1].c_str()), t[2], t[3], t[4], t[5], atoi(t[6].c_str()), atoi(t[7].c_str()), t[8], t[9]};
-      try { res = c.fam == "M" ? future_mpi(c, caseno) : future_seq(c); }
+      g_fcomm = c.fam == "R" ? g_rev : g_wdup; g_me = c.fam == "N" ? g_rank : (c.fam == "R" ? g_size - 1 - g_rank : g_rank);
+      try { res = c.fam != "N" ? future_mpi(c, caseno) : future_seq(c); }
       catch (Dune::Exception& e) { res = std::string("?E(") + typeid(e).name() + ")"; }
     }
     // cases are separated by a barrier on the harness' own communicator: a process that skipped a collective of the code
